@@ -73,6 +73,14 @@ PROPS = {
         real=['jsonrpc::HeaderStreamProto / RawStreamProto / PacketProto', 'jsonrpc::Proto', 'jsonrpc::Rpc', 'eventx::TimeoutMonitor', 'util::json::FindEndPos', 'util::Serializer/Deserializer', 'event loop + timers'],
         stub=['the transport between the two endpoints (simulated link: re-segmentation, delay, jitter; loss/duplication/reordering for the datagram framing)', 'monotonic clock'],
     ),
+    'C15': dict(
+        harness='c15_dns',
+        title='DNS client',
+        flavours=dict(asan=dict(quick_s=30, thorough_s=600)),
+        mode='single',
+        real=['network::DnsRequest (reply parser, request table)', 'network::UdpSocket', 'eventx::TimeoutMonitor', 'util::Deserializer', 'event loop', 'kernel UDP over 127.0.0.1 (redirected at the sendto seam)'],
+        stub=['the name servers and the network between client and servers (replies crafted and scheduled by the plan)', 'monotonic clock'],
+    ),
 }
 
 NOT_APPLICABLE = {
@@ -84,4 +92,4 @@ NOT_APPLICABLE = {
 
 # planned in DESIGN.md §7 but whose harness is not built yet — not claimed until it is
 PENDING = {p: 'harness not built yet (planned in DESIGN.md §7); not claimed until the check exists' for p in
-           ['C04', 'C09', 'C11', 'C13', 'C15', 'C17', 'C18', 'C20']}
+           ['C04', 'C09', 'C11', 'C13', 'C17', 'C18', 'C20']}
